@@ -319,6 +319,7 @@ impl<T> TooDeeOpsMut<T> for TooDee<T> {
     /// assert_eq!(toodee[(0, 2)], 1);
     /// ```
     fn swap_rows(&mut self, mut r1: usize, mut r2: usize) {
+        assert!(r1 < self.num_rows && r2 < self.num_rows);
         if r1 == r2 {
             return;
         }
